@@ -183,12 +183,13 @@ GetCursor(n) == cursors[n]
 (* Sanity laws of the model itself.  The substance of C08/C09 is the        *)
 (* conformance of the implementation with the operators above; these laws  *)
 (* are the facts the callers (log sync, forge, acked) rely on, checked by  *)
-(* TLC on every reachable state.  As = authors, Ls = logs, Bs = bounds.    *)
+(* TLC on every reachable state.  As = authors, Ls = logs, LSets = sets of   *)
+(* logs, Bs = bounds.                                                          *)
 
 \* heights summarise a log: nothing lies after the height, everything lies at or below it,
 \* and the latest entry sits at the height
-HeightsSummarise(As, Ls) ==
-    \A a \in As : \A L \in SUBSET Ls :
+HeightsSummarise(As, LSets) ==
+    \A a \in As : \A L \in LSets :
         LET H == Heights(a, L) IN
         /\ DOMAIN H \subseteq L
         /\ \A l \in L :
